@@ -402,7 +402,9 @@ func checkPayer(r *Run, payer, iter, credit, zero string, zeroHeightArg int) {
 	}
 	addrP := cl.Params[0]
 	fromAddr := func(v ssa.Value) bool { return derivesFrom(v, func(y ssa.Value) bool { return y == ssa.Value(addrP) }) }
-	fromAmt := func(v ssa.Value) bool { return derivesFrom(v, func(y ssa.Value) bool { return y == ssa.Value(cl.Params[1]) }) }
+	fromAmt := func(v ssa.Value) bool {
+		return derivesFrom(v, func(y ssa.Value) bool { return y == ssa.Value(cl.Params[1]) })
+	}
 	r.Check(fromAddr(cr.Call.Args[1]) && fromAmt(cr.Call.Args[2]), "C12.maturity", fname(cl), "credits the scanned address with the scanned amount", "AddToAddress(addr, amount of the entry)",
 		"the matured amount is credited to someone else or with another amount", p.ipos(cr))
 	zargs := zr.Call.Args
